@@ -31,7 +31,9 @@ def run(ctx):
     ctx.rule('C06.R9', 'bisync delete results are not discarded before the entry is dropped from the record', floor=2)
     ctx.rule('C06.R10', 'every successful non-dry-run exit of run_bisync passes Archive::save', floor=1)
     bs = Bisync(ctx, F, 'C06.R4')
+    ctx.rule('C06.R11', 'the plan applied is exactly the value reconcile() returned (no filtering between decision and apply)', floor=1)
     bs.every_success_records(ctx, 'C06.R10')
+    bs.plan_is_reconcile_result(ctx, 'C06.R11')
     r1(ctx, F, bs)
     from rules import C02
     # R2: reuse the winner tuple rule under this id
